@@ -513,6 +513,14 @@ def _interval(fn, g, at, e, depth=0):
             if strip_all(l).get("k") == "DeclRefExpr" and strip_all(l).get("d") == e.get("d"):
                 c = folded(rr)
                 if c is None:
+                    # a bound that is itself a variable with a known range
+                    rv = strip_all(rr)
+                    ri = _interval(fn, g, at, rr, depth + 1) if rv is not None and rv.get("k") == "DeclRefExpr" and \
+                        rv.get("d") != e.get("d") else None
+                    if ri and rel in ("<", "<="):
+                        hi = min(hi, ri[1] - (1 if rel == "<" else 0))
+                    elif ri and rel in (">", ">="):
+                        lo = max(lo, ri[0] + (1 if rel == ">" else 0))
                     continue
                 if rel == ">":
                     lo = max(lo, c + 1)
@@ -774,10 +782,11 @@ STRING_CONSUMERS = {"strcmp": [0, 1], "strncmp": [0, 1], "strlen": [0], "strcpy"
                     "puts": [0], "strcasecmp": [0, 1], "strchr": [0], "strstr": [0, 1], "strdup": [0]}
 
 
-def _nullable_fields(prog):
-    """(record name, field name) pairs for which some row of a global table holds a null pointer."""
+def _nullable_fields(prog, rows=None):
+    """(record name, field name) pairs for which some row of a global table holds a null pointer.  `rows`, if
+    given, receives {(global decl id, field name): set of row indices holding NULL}."""
     out = set()
-    for gl in prog.globals.values():
+    for gid, gl in prog.globals.items():
         init = strip_all(gl.get("init")) if gl.get("init") else None
         if init is None or init.get("k") != "InitListExpr":
             continue
@@ -788,20 +797,23 @@ def _nullable_fields(prog):
             continue
         names = [f_["n"] for f_ in rec[0]["fields"]]
         ftypes = [f_.get("t") or "" for f_ in rec[0]["fields"]]
-        for row in init.get("c", []):
+        for ri, row in enumerate(init.get("c", [])):
             row = strip_all(row)
             if row is None or row.get("k") != "InitListExpr":
                 continue
             for i, c in enumerate(row.get("c", [])):
                 if i < len(names) and "*" in ftypes[i] and (folded(c) == 0 or (strip_all(c) or {}).get("null") or c.get("null")):
                     out.add((rname.split("::")[-1], names[i]))
+                    if rows is not None:
+                        rows.setdefault((gl.get("d", gid), names[i]), set()).add(ri)
     return out
 
 
 def rule_nullable_table_strings(prog, fixture=False):
     r = RuleResult("R-C08-10", "a string field that is NULL in some row of a constant table (the terminating row) is "
                    "handed to strcmp/strlen/... only where it was tested non-NULL", floor=0 if fixture else 1)
-    nullable = _nullable_fields(prog)
+    null_rows = {}
+    nullable = _nullable_fields(prog, null_rows)
     r.info["nullable_fields"] = sorted("%s.%s" % x for x in nullable)
     for fn in prog.functions.values():
         g = None
@@ -832,6 +844,13 @@ def rule_nullable_table_strings(prog, fixture=False):
                         ok = True
                 for l, rel, rr in (g.cmps(n) or []):
                     if rel == "!=" and same_expr(l, e) and folded(rr) == 0:
+                        ok = True
+                # table[i].field with i confined to the rows that have the field
+                if not ok and base is not None and base.get("k") == "ArraySubscriptExpr":
+                    tb = strip_all(base["c"][0])
+                    bad_rows = null_rows.get(((tb or {}).get("d"), e.get("n")))
+                    iv = _interval(fn, g, n, base["c"][1]) if bad_rows is not None else None
+                    if iv and not any(iv[0] <= x <= iv[1] for x in bad_rows):
                         ok = True
                 r.add("%s::%s::%s(%s)#%d" % (fn.relfile(), fn.qn, name, show(e), k), fn.loc(n), ok,
                       "tested non-NULL" if ok else
